@@ -1,4 +1,635 @@
-import Bardolph.Model.Wf
-/-! # C06 — the compiler always ends in accept or a line-numbered rejection (theorems: agent branch) -/
+import Bardolph.Props.C05
+import Bardolph.Proofs.ClosedSplit
+import Bardolph.Proofs.ClosedLoad
+/-!
+# C06 (`accepted_executable`) / C05 (`gen_closed`): compiled scripts are accepted by the checker
+
+For every well-scoped script `b` (resolved AST): if the code generator produces a program
+(`Gen.genProgram b = some prog`), the loaded image passes the checker of C05,
+`Wf.wfImage (Loader.load prog) = true`.  By `C05_wf_sound` every execution of the VM model on
+that image stays inside the program, never hits a control fault (unknown routine, missing
+frame, `ROUTINE` executed, bad instruction, …) and ends with balanced frames.
+
+`WellScoped b` is what the compiler checks before it emits code:
+* every call (statement, or inside an expression / rvalue / argument) names a built-in routine
+  or a routine defined somewhere in the script (top level or inside `if` / `repeat` / matrix
+  block bodies);
+* `return` only inside a routine body; no definition inside a routine body;
+* `break` only inside a loop body — where the body of a routine definition and the body of a
+  matrix block start afresh (a `break` there must belong to a loop of that body);
+* no matrix operand (`MATRIX … END matrix`) inside a matrix block, where a routine body again
+  starts afresh;
+* the names of the defined routines are pairwise distinct.
+
+The proof is layered (`Proofs/Closed.lean`: closed code and its composition; `Proofs/ClosedGen.lean`:
+every statement compiles to closed code; `Proofs/ClosedSplit.lean`: what the loader's
+classification makes of generated code; `Proofs/ClosedLoad.lean`: closed programs load to accepted
+images).
+-/
+set_option linter.unusedSimpArgs false
+set_option linter.unusedVariables false
+
 namespace Bardolph
+namespace C06
+open Gen Wf Loader Closed Vm
+
+/-! ## well-scoped scripts -/
+
+def defNames (b : Block) : List String := (defsB b).map (·.1)
+
+/-- the scoping rules of the language, on the resolved AST (see the file header) -/
+def WellScoped (b : Block) : Prop :=
+  wsBlock (builtinNames ++ defNames b) false false false b = true ∧ (defNames b).Nodup
+
+instance (b : Block) : Decidable (WellScoped b) := by
+  unfold WellScoped; infer_instance
+
+/-! ## from `genProgram` to closed code -/
+
+theorem eq_ins_of_mapM : ∀ (c : Code) (prog : Program),
+    c.mapM (fun g => match g with
+      | .i x => some x
+      | .brk => none) = some prog → c = ins prog
+  | [], prog, h => by
+    simp at h
+    subst h; rfl
+  | g :: c, prog, h => by
+    rw [List.mapM_cons] at h
+    cases g with
+    | brk => simp at h
+    | i x =>
+      simp only [Option.pure_def, Option.bind_eq_bind, Option.bind_some] at h
+      cases hc : c.mapM (fun g => match g with
+        | .i x => some x
+        | .brk => none) with
+      | none => simp [hc] at h
+      | some p =>
+        simp only [hc, Option.bind_some, Option.some.injEq] at h
+        subst h
+        rw [ins_cons, eq_ins_of_mapM c p hc]
+
+theorem genBlock_eq_ins {b : Block} {prog : Program} (h : genProgram b = some prog) :
+    genBlock b = ins prog := eq_ins_of_mapM _ _ h
+
+/-- code without `break` markers is an instruction list -/
+theorem eq_ins_of_noBrk : ∀ (c : Code), (∀ k : Nat, c[k]? ≠ some G.brk) → c = ins (c.map gi)
+  | [], _ => rfl
+  | g :: c, h => by
+    have h0 := h 0
+    have ih := eq_ins_of_noBrk c fun k => by simpa using h (k + 1)
+    cases g with
+    | brk => simp at h0
+    | i x =>
+      simp only [List.map_cons, ins_cons, gi_i, List.cons.injEq, true_and]
+      exact ih
+
+/-! the bodies of the definitions of a well-scoped script are well-scoped routine bodies -/
+
+mutual
+  theorem ws_defs_stmt {K : List String} : ∀ (s : Stmt) (il im : Bool),
+      wsStmt K false il im s = true → ∀ d ∈ defsS s, wsBlock K true false false d.2 = true
+    | .setReg _ _, il, im, h, d, hd => by simp [defsS] at hd
+    | .units _, il, im, h, d, hd => by simp [defsS] at hd
+    | .actAll _, il, im, h, d, hd => by simp [defsS] at hd
+    | .setDefault, il, im, h, d, hd => by simp [defsS] at hd
+    | .action k ops, il, im, h, d, hd => by
+      simp only [wsStmt] at h
+      simp only [defsS] at hd
+      exact ws_defs_ops ops im h d hd
+    | .get _, il, im, h, d, hd => by simp [defsS] at hd
+    | .wait, il, im, h, d, hd => by simp [defsS] at hd
+    | .timeAt _, il, im, h, d, hd => by simp [defsS] at hd
+    | .assign _ _, il, im, h, d, hd => by simp [defsS] at hd
+    | .defMacro _ _, il, im, h, d, hd => by simp [defsS] at hd
+    | .defRoutine n ps body, il, im, h, d, hd => by
+      simp only [wsStmt, Bool.and_eq_true] at h
+      simp only [defsS, List.mem_singleton] at hd
+      subst hd
+      exact h.2
+    | .call _ _ _, il, im, h, d, hd => by simp [defsS] at hd
+    | .ret _, il, im, h, d, hd => by simp [defsS] at hd
+    | .ite c t none, il, im, h, d, hd => by
+      simp only [wsStmt, Bool.and_eq_true] at h
+      simp only [defsS] at hd
+      exact ws_defs_block t _ _ h.1.2 d hd
+    | .ite c t (some b), il, im, h, d, hd => by
+      simp only [wsStmt, Bool.and_eq_true] at h
+      simp only [defsS, List.mem_append] at hd
+      rcases hd with hd | hd
+      · exact ws_defs_block t _ _ h.1.2 d hd
+      · exact ws_defs_block b _ _ h.2 d hd
+    | .repeat_ hd0 body, il, im, h, d, hd => by
+      simp only [wsStmt, Bool.and_eq_true] at h
+      simp only [defsS] at hd
+      exact ws_defs_block body _ _ h.2 d hd
+    | .brk, il, im, h, d, hd => by simp [defsS] at hd
+    | .print _, il, im, h, d, hd => by simp [defsS] at hd
+    | .println _, il, im, h, d, hd => by simp [defsS] at hd
+    | .printf _ _, il, im, h, d, hd => by simp [defsS] at hd
+    | .stage _ _ _, il, im, h, d, hd => by simp [defsS] at hd
+  theorem ws_defs_block {K : List String} : ∀ (b : Block) (il im : Bool),
+      wsBlock K false il im b = true → ∀ d ∈ defsB b, wsBlock K true false false d.2 = true
+    | .nil, il, im, h, d, hd => by simp [defsB] at hd
+    | .cons s rest, il, im, h, d, hd => by
+      simp only [wsBlock, Bool.and_eq_true] at h
+      simp only [defsB, List.mem_append] at hd
+      rcases hd with hd | hd
+      · exact ws_defs_stmt s _ _ h.1 d hd
+      · exact ws_defs_block rest _ _ h.2 d hd
+  theorem ws_defs_op {K : List String} : ∀ (o : Operand_) (im : Bool),
+      wsOperand K false im o = true → ∀ d ∈ defsOp o, wsBlock K true false false d.2 = true
+    | .light _, im, h, d, hd => by simp [defsOp] at hd
+    | .group _, im, h, d, hd => by simp [defsOp] at hd
+    | .location _, im, h, d, hd => by simp [defsOp] at hd
+    | .zone _ _, im, h, d, hd => by simp [defsOp] at hd
+    | .matrixInline _ _ _ _, im, h, d, hd => by simp [defsOp] at hd
+    | .matrixBlock n body, im, h, d, hd => by
+      simp only [wsOperand, Bool.and_eq_true] at h
+      simp only [defsOp] at hd
+      exact ws_defs_block body _ _ h.2 d hd
+  theorem ws_defs_ops {K : List String} : ∀ (ops : Operands) (im : Bool),
+      wsOperands K false im ops = true → ∀ d ∈ defsOps ops, wsBlock K true false false d.2 = true
+    | .nil, im, h, d, hd => by simp [defsOps] at hd
+    | .cons o rest, im, h, d, hd => by
+      simp only [wsOperands, Bool.and_eq_true] at h
+      simp only [defsOps, List.mem_append] at hd
+      rcases hd with hd | hd
+      · exact ws_defs_op o _ h.1 d hd
+      · exact ws_defs_ops rest _ h.2 d hd
+end
+
+/-- the body of a well-scoped routine compiles to closed code without `break` markers -/
+theorem body_closed {K : List String} {body : Block} (h : wsBlock K true false false body = true) :
+    genBlock body = ins ((genBlock body).map gi) ∧
+      ClosedAt true false K (ins ((genBlock body).map gi)) (none, Abs.empty) := by
+  have hc := closed_block body true false false h Abs.empty Entry.empty
+  have e := eq_ins_of_noBrk (genBlock body) fun k hk => by
+    have := (hc.brks k hk).1
+    cases this
+  exact ⟨e, e ▸ hc⟩
+
+/-! ## the theorem -/
+
+/-- **`gen_closed`, in full**: the loaded image of every well-scoped script is accepted by the
+checker — routine definitions anywhere (top level, inside `if` / `repeat` / matrix-block bodies:
+the loader relocates the jumps that span them), calls of user and built-in routines in every
+rvalue position, `return` at any loop depth of a routine, `break` at any `if`-nesting of a loop,
+every loop form, matrix operands. -/
+theorem C06_closed_nested_definitions {b : Block} {prog : Program} (hws : WellScoped b)
+    (hg : genProgram b = some prog) : wfImage (load prog) = true := by
+  obtain ⟨hw, hnd⟩ := hws
+  have hb := genBlock_eq_ins hg
+  have hmain : ClosedAt false false (builtinNames ++ defNames b) (ins prog) (none, Abs.empty) := by
+    rw [← hb]
+    exact closed_block b false false false hw Abs.empty Entry.empty
+  refine Load.wfImage_load (secs := (defsB b).map fun d => (d.1, (genBlock d.2).map gi)) hmain ?_ ?_
+    ?_ ?_
+  · simp [defNames, List.map_map, Function.comp_def]
+  · rw [routineSegment_eq, ← hb, split_block b false false hw, List.flatMap_map]
+    simp only [List.map_flatMap]
+    congr 1
+    funext d
+    simp [rc, Load.render, List.map_append]
+  · intro sec hsec
+    obtain ⟨d, hd, rfl⟩ := List.mem_map.mp hsec
+    exact (body_closed (ws_defs_block b false false hw d hd)).2
+  · simpa [defNames, List.map_map, Function.comp_def] using hnd
+
+
+theorem mapM_ins : ∀ (xs : List Instr), (ins xs).mapM (fun g => match g with
+    | .i x => some x
+    | .brk => none) = some xs
+  | [] => rfl
+  | x :: xs => by
+    rw [ins_cons, List.mapM_cons, mapM_ins xs]
+    rfl
+
+/-- the code generator does not fail on a well-scoped script: no `break` is left unpatched -/
+theorem C06_wellscoped_compiles {b : Block} (hws : WellScoped b) :
+    ∃ prog, genProgram b = some prog := by
+  have hc := closed_block b false false false hws.1 Abs.empty Entry.empty
+  have e := eq_ins_of_noBrk (genBlock b) fun k hk => by
+    have := (hc.brks k hk).1
+    cases this
+  obtain ⟨xs, hx⟩ : ∃ xs, genBlock b = ins xs := ⟨_, e⟩
+  refine ⟨xs, ?_⟩
+  unfold genProgram
+  rw [hx]
+  exact mapM_ins xs
+
+/-! ## routine-free programs are loaded unchanged -/
+
+theorem classify_noRoutine : ∀ (prog : List Instr), (∀ x ∈ prog, isRoutine x = none) →
+    classify none prog = List.replicate prog.length false
+  | [], _ => rfl
+  | x :: xs, h => by
+    have hx := h x (by simp)
+    have e : cnext none x = none := by simp [cnext, hx]
+    rw [Closed.classify_cons, e, classify_noRoutine xs fun y hy => h y (by simp [hy])]
+    simp [cbit, hx, List.replicate_succ]
+
+theorem mainPos_replicate (n k : Nat) : mainPos (List.replicate n false) k = min k n := by
+  simp [mainPos, List.take_replicate, List.filter_replicate]
+
+theorem reloc_id (prog : List Instr) (x : Instr) {j : Nat} (hj : j < prog.length) :
+    Load.reloc prog (List.replicate prog.length false) x j = x := by
+  cases x <;> try rfl
+  rename_i c off
+  simp only [Load.reloc]
+  split
+  · rename_i h
+    simp only [Bool.and_eq_true, decide_eq_true_eq] at h
+    rw [mainPos_replicate, mainPos_replicate]
+    congr 1
+    omega
+  · rfl
+
+theorem mainAux_id (f : Instr → Nat → Instr) : ∀ (xs : List Instr) (i : Nat),
+    (∀ k x, xs[k]? = some x → f x (i + k) = x) →
+    Load.mainAux f xs (List.replicate xs.length false) i = xs
+  | [], i, _ => rfl
+  | x :: xs, i, h => by
+    have h0 := h 0 x (by simp)
+    have ih := mainAux_id f xs (i + 1) fun k y hy => by
+      have := h (k + 1) y (by simpa using hy)
+      have e : i + 1 + k = i + (k + 1) := by omega
+      rw [e]; exact this
+    simp only [List.length_cons, List.replicate_succ, Load.mainAux, Bool.false_eq_true, if_false]
+    rw [ih]
+    simpa using h0
+
+/-- `Loader.load` of a program without `ROUTINE` markers is the program itself -/
+theorem load_no_routines {prog : List Instr} (h : ∀ x ∈ prog, isRoutine x = none) :
+    load prog = ⟨prog.toArray, []⟩ := by
+  have hc := classify_noRoutine prog h
+  have hr : routineSegment prog (List.replicate prog.length false) = [] := by
+    simp only [routineSegment, List.map_eq_nil_iff, List.filter_eq_nil_iff]
+    intro p hp
+    have := (List.of_mem_zip hp).2
+    simp only [List.mem_replicate] at this
+    simp [this.2]
+  have hm : mainSegment prog (List.replicate prog.length false) = prog := by
+    rw [Load.mainSegment_eq]
+    apply mainAux_id
+    intro k x hk
+    have hk' : k < prog.length := by
+      rcases List.getElem?_eq_some_iff.mp hk with ⟨hlt, _⟩
+      exact hlt
+    rw [Nat.zero_add]
+    exact reloc_id prog x hk'
+  simp only [load, hc, hr, hm, List.isEmpty_nil, if_true]
+
+/-! ## the layers -/
+
+mutual
+  /-- straight-line statements: no routine definition, no `if`, no loop, at any depth -/
+  def flatS : Stmt → Bool
+    | .setReg _ _ => true
+    | .units _ => true
+    | .actAll _ => true
+    | .setDefault => true
+    | .action _ ops => flatOps ops
+    | .get _ => true
+    | .wait => true
+    | .timeAt _ => true
+    | .assign _ _ => true
+    | .defMacro _ _ => true
+    | .defRoutine _ _ _ => false
+    | .call _ _ _ => true
+    | .ret _ => true
+    | .ite _ _ _ => false
+    | .repeat_ _ _ => false
+    | .brk => true
+    | .print _ => true
+    | .println _ => true
+    | .printf _ _ => true
+    | .stage _ _ _ => true
+  def flatB : Block → Bool
+    | .nil => true
+    | .cons s rest => flatS s && flatB rest
+  def flatOp : Operand_ → Bool
+    | .light _ => true
+    | .group _ => true
+    | .location _ => true
+    | .zone _ _ => true
+    | .matrixInline _ _ _ _ => true
+    | .matrixBlock _ body => flatB body
+  def flatOps : Operands → Bool
+    | .nil => true
+    | .cons o rest => flatOp o && flatOps rest
+end
+
+mutual
+  theorem flat_defsS : ∀ (s : Stmt), flatS s = true → defsS s = []
+    | .setReg _ _, _ => by rw [defsS]
+    | .units _, _ => by rw [defsS]
+    | .actAll _, _ => by rw [defsS]
+    | .setDefault, _ => by rw [defsS]
+    | .action _ ops, h => by
+      simp only [flatS] at h
+      rw [defsS]; exact flat_defsOps ops h
+    | .get _, _ => by rw [defsS]
+    | .wait, _ => by rw [defsS]
+    | .timeAt _, _ => by rw [defsS]
+    | .assign _ _, _ => by rw [defsS]
+    | .defMacro _ _, _ => by rw [defsS]
+    | .defRoutine _ _ _, h => by simp [flatS] at h
+    | .call _ _ _, _ => by rw [defsS]
+    | .ret _, _ => by rw [defsS]
+    | .ite _ _ _, h => by simp [flatS] at h
+    | .repeat_ _ _, h => by simp [flatS] at h
+    | .brk, _ => by rw [defsS]
+    | .print _, _ => by rw [defsS]
+    | .println _, _ => by rw [defsS]
+    | .printf _ _, _ => by rw [defsS]
+    | .stage _ _ _, _ => by rw [defsS]
+  theorem flat_defsB : ∀ (b : Block), flatB b = true → defsB b = []
+    | .nil, _ => by rw [defsB]
+    | .cons s rest, h => by
+      simp only [flatB, Bool.and_eq_true] at h
+      rw [defsB, flat_defsS s h.1, flat_defsB rest h.2]; rfl
+  theorem flat_defsOp : ∀ (o : Operand_), flatOp o = true → defsOp o = []
+    | .light _, _ => by rw [defsOp]
+    | .group _, _ => by rw [defsOp]
+    | .location _, _ => by rw [defsOp]
+    | .zone _ _, _ => by rw [defsOp]
+    | .matrixInline _ _ _ _, _ => by rw [defsOp]
+    | .matrixBlock _ body, h => by
+      simp only [flatOp] at h
+      rw [defsOp]; exact flat_defsB body h
+  theorem flat_defsOps : ∀ (ops : Operands), flatOps ops = true → defsOps ops = []
+    | .nil, _ => by rw [defsOps]
+    | .cons o rest, h => by
+      simp only [flatOps, Bool.and_eq_true] at h
+      rw [defsOps, flat_defsOp o h.1, flat_defsOps rest h.2]; rfl
+end
+
+/-- **layer 2**: scripts without routine definitions — `if` nested to any depth, every loop
+form, `break` at any `if`-nesting inside a loop.  The loader leaves such a program as it is,
+and the checker accepts it. -/
+theorem C06_closed_structured {b : Block} {prog : Program} (hws : WellScoped b)
+    (hnd : defsB b = []) (hg : genProgram b = some prog) :
+    load prog = ⟨prog.toArray, []⟩ ∧ wfImage ⟨prog.toArray, []⟩ = true := by
+  have hl : load prog = ⟨prog.toArray, []⟩ := by
+    apply load_no_routines
+    have hm : MarkerFree (genBlock b) := markerFree_block (mono_block b false false hws.1 hnd)
+    rw [genBlock_eq_ins hg] at hm
+    intro x hx
+    have : G.i x ∈ ins prog := by
+      simp only [ins, List.mem_map]
+      exact ⟨x, hx, rfl⟩
+    exact (hm _ this).1
+  exact ⟨hl, hl ▸ C06_closed_nested_definitions hws hg⟩
+
+/-- **layer 1**: straight-line scripts — register settings, actions (incl. zones and both matrix
+forms), `get`, `wait`, assignments, `print`/`println`/`printf`, calls of built-in routines in any
+rvalue position, time patterns, units, macros. -/
+theorem C06_closed_straightline {b : Block} {prog : Program} (hf : flatB b = true)
+    (hws : WellScoped b) (hg : genProgram b = some prog) :
+    load prog = ⟨prog.toArray, []⟩ ∧ wfImage ⟨prog.toArray, []⟩ = true :=
+  C06_closed_structured hws (flat_defsB b hf) hg
+
+/-- all routine definitions are top-level statements -/
+def topDefs : Block → Bool
+  | .nil => true
+  | .cons (.defRoutine _ _ _) rest => topDefs rest
+  | .cons s rest => (defsS s).isEmpty && topDefs rest
+
+/-- **layer 3**: routine definitions at top level, calls of user routines, `return` inside
+routine bodies at any loop depth (a special case of `C06_closed_nested_definitions`). -/
+theorem C06_closed_with_routines {b : Block} {prog : Program} (hws : WellScoped b)
+    (_htop : topDefs b = true) (hg : genProgram b = some prog) : wfImage (load prog) = true :=
+  C06_closed_nested_definitions hws hg
+
+/-! ## `accepted_executable` -/
+
+/-- **C06, `accepted_executable`** (for the VM model): the compiled and loaded image of every
+well-scoped script, on every execution (any fuel, any set of lights), keeps the program counter
+inside the program, never ends in a control fault (`pc negative`, `END_LOOP without loop frame`,
+`return outside a routine`, `JSR without CTX`, `PARAM without CTX`, `ROUTINE executed`,
+`indirect jump`, `unknown routine …`, `bad instruction …`), and when it halts it has run off the
+end of the code with an empty frame stack. -/
+theorem C06_accepted_executable {b : Block} {prog : Program} (hws : WellScoped b)
+    (hg : genProgram b = some prog) (fuel : Nat) (lights : List Light) :
+    let img := load prog
+    let s := Vm.run img fuel (Vm.init lights)
+    (0 ≤ s.pc ∧ s.pc ≤ img.code.size) ∧
+    (s.status ≠ .fault "pc negative" ∧ s.status ≠ .fault "END_LOOP without loop frame" ∧
+      s.status ≠ .fault "return outside a routine" ∧ s.status ≠ .fault "JSR without CTX" ∧
+      s.status ≠ .fault "PARAM without CTX" ∧ s.status ≠ .fault "ROUTINE executed" ∧
+      s.status ≠ .fault "indirect jump" ∧ (∀ n, s.status ≠ .fault ("unknown routine " ++ n)) ∧
+      (∀ w, s.status ≠ .fault ("bad instruction " ++ w))) ∧
+    (s.status = .halted → s.stack = [] ∧ s.pc = img.code.size) := by
+  have hwf := C06_closed_nested_definitions hws hg
+  exact ⟨C05.C05_pc_in_range hwf fuel lights, C05.C05_no_control_fault hwf fuel lights,
+    C05.C05_halts_balanced hwf fuel lights⟩
+
+
+/-! ## the hypotheses are satisfiable: concrete scripts -/
+
+section Examples
+
+private def B := Block.ofList
+private def A := Args.ofList
+private def num (i : Int) : Rv := .lit (.int i)
+private def rcall (f : String) (ps : List String) (as : List Rv) : Rv := .call f ps (A as)
+
+/-- ```
+hue 3  units raw  on all  set default
+set "a" and group g and "z" zone 1 2 and "m" row 1 and "m" begin stage row 1; hue [round [sqrt 4]] end
+get "a"  wait  time at 8:00 or 9:*   assign x {1 + [round [sin 1]]}
+print 1  println  println 2  printf "{}" 1 [cos 2]   define m 1
+``` -/
+def demoStraight : Block := B [
+  .setReg .hue (num 3), .units .raw, .actAll .on, .setDefault,
+  .action .set (Operands.ofList [.light (.str "a"), .group (.var "g"),
+    .zone (.str "z") ⟨num 1, some (num 2)⟩,
+    .matrixInline (.str "m") (some ⟨num 1, none⟩) none true,
+    .matrixBlock (.str "m") (B [.stage (some ⟨num 1, none⟩) none false,
+      .setReg .hue (rcall "round" ["x"] [.expr (.call "sqrt" ["x"] (A [num 4]))])])]),
+  .get (.lit (.str "a")), .wait, .timeAt [⟨[([8], [0])]⟩, ⟨[([9], [0, 1, 2])]⟩],
+  .assign "x" (.expr (.bin .add (.lit (.int 1)) (.call "round" ["x"] (A [rcall "sin" ["x"] [num 1]])))),
+  .print (num 1), .println none, .println (some (num 2)),
+  .printf "{}" (A [num 1, rcall "cos" ["x"] [num 2]]), .defMacro "m" (.int 1)]
+
+example : flatB demoStraight = true ∧ WellScoped demoStraight := by decide
+
+example : ∃ prog, genProgram demoStraight = some prog ∧ load prog = ⟨prog.toArray, []⟩ ∧
+    wfImage ⟨prog.toArray, []⟩ = true :=
+  let ⟨prog, h⟩ := C06_wellscoped_compiles (b := demoStraight) (by decide)
+  ⟨prog, h, C06_closed_straightline (by decide) (by decide) h⟩
+
+/-- every loop form, nested `if`s, `break` at several nestings, a loop inside a matrix block -/
+def demoStructured : Block := B [
+  .ite (num 1) (B [.ite (num 2) (B [.wait]) (some (B [.wait, .wait]))]) none,
+  .ite (num 1) (B []) (some (B [.ite (num 1) (B []) none])),
+  .repeat_ .forever (B [.ite (num 1) (B [.brk]) (some (B [.ite (num 2) (B [.brk]) none])), .brk]),
+  .repeat_ (.while_ (rcall "round" ["x"] [num 1]))
+    (B [.wait, .repeat_ (.count (num 3)) (B [.brk]), .brk]),
+  .repeat_ (.range "i" (num 1) (num 5)) (B [.ite (num 1) (B [.brk]) none]),
+  .repeat_ (.interp (num 4) "i" (num 1) (num 5)) (B [.brk]),
+  .repeat_ (.cycle (num 4) "i" (some (num 1))) (B [.brk]),
+  .repeat_ (.cycle (num 4) "i" none) (B []),
+  .repeat_ (.all "l" none) (B [.brk]),
+  .repeat_ (.all "l" (some (.fromTo "v" (num 1) (num 2)))) (B [.brk]),
+  .repeat_ (.groups "l" (some (.cycle "v" none))) (B [.brk]),
+  .repeat_ (.locations "l" (some (.cycle "v" (some (num 1))))) (B [.brk]),
+  .repeat_ (.iter [.light (.lit (.str "a")), .group (.var "g"), .location (.lit (.str "x")), .all]
+    "l" none) (B [.ite (num 1) (B [.brk]) none]),
+  .action .set (Operands.ofList [.matrixBlock (.str "m") (B [.repeat_ .forever (B [.brk])])])]
+
+example : WellScoped demoStructured ∧ defsB demoStructured = [] := by decide
+
+example : ∃ prog, genProgram demoStructured = some prog ∧ wfImage ⟨prog.toArray, []⟩ = true :=
+  let ⟨prog, h⟩ := C06_wellscoped_compiles (b := demoStructured) (by decide)
+  ⟨prog, h, (C06_closed_structured (by decide) (by decide) h).2⟩
+
+/-- ```
+define f with x begin
+  repeat begin  if 1 break;  if 1 return 1  end
+  return
+end
+repeat 2 begin  f(1)  end
+``` -/
+def demoRoutines : Block := B [
+  .defRoutine "f" ["x"] (B [
+    .repeat_ .forever (B [.ite (num 1) (B [.brk]) none, .ite (num 1) (B [.ret (some (num 1))]) none]),
+    .ret none]),
+  .repeat_ (.count (num 2)) (B [.call "f" ["x"] (A [num 1])])]
+
+example : WellScoped demoRoutines ∧ topDefs demoRoutines = true := by decide
+
+example : ∃ prog, genProgram demoRoutines = some prog ∧ wfImage (load prog) = true :=
+  let ⟨prog, h⟩ := C06_wellscoped_compiles (b := demoRoutines) (by decide)
+  ⟨prog, h, C06_closed_with_routines (by decide) (by decide) h⟩
+
+/-- a routine with a loop, a conditional break and a return, defined inside an `if` body and
+called from a loop; a second routine defined inside that loop (after a forward call of it as an
+argument) and inside a matrix block:
+```
+if 1 begin
+  wait
+  define f with x begin  repeat begin  if 1 break;  if 1 return 1  end  end
+  wait
+end else wait
+repeat 2 begin
+  define g begin  f(1)  end
+  f([g])
+  set "m" begin  define h begin set "m" row 1 end  end
+  break
+end
+``` -/
+def demoNested : Block := B [
+  .ite (num 1) (B [.wait,
+    .defRoutine "f" ["x"] (B [.repeat_ .forever
+      (B [.ite (num 1) (B [.brk]) none, .ite (num 1) (B [.ret (some (num 1))]) none])]),
+    .wait]) (some (B [.wait])),
+  .repeat_ (.count (num 2)) (B [
+    .defRoutine "g" [] (B [.call "f" ["x"] (A [num 1])]),
+    .call "f" ["x"] (A [rcall "g" [] []]),
+    .action .set (Operands.ofList [.matrixBlock (.str "m") (B [
+      .defRoutine "h" [] (B [.action .set (Operands.ofList
+        [.matrixInline (.str "m") (some ⟨num 1, none⟩) none false])])])]),
+    .brk])]
+
+example : WellScoped demoNested := by decide
+
+example : defNames demoNested = ["f", "g", "h"] := by decide
+
+/-- by the theorem … -/
+example : ∃ prog, genProgram demoNested = some prog ∧ wfImage (load prog) = true :=
+  let ⟨prog, h⟩ := C06_wellscoped_compiles (b := demoNested) (by decide)
+  ⟨prog, h, C06_closed_nested_definitions (by decide) h⟩
+
+/-- the requested core case — a routine with a loop, a conditional break and a return, defined
+inside an `if` body and called from a loop — with its compiled program written out:
+```
+if 1 begin
+  define f with x begin  repeat begin  if 1 break;  if 1 return 1  end  end
+end
+repeat 2 begin  f(1)  end
+``` -/
+def demoCore : Block := B [
+  .ite (num 1) (B [
+    .defRoutine "f" ["x"] (B [.repeat_ .forever
+      (B [.ite (num 1) (B [.brk]) none, .ite (num 1) (B [.ret (some (num 1))]) none])])]) none,
+  .repeat_ (.count (num 2)) (B [.call "f" ["x"] (A [num 1])])]
+
+def demoCoreProg : Program := [
+  .moveq (.int 1) (.reg .result),           --  0
+  .jump .ifFalse 15,                        --  1  over the routine definition, to 16
+  .routine "f",                             --  2
+  .loop,                                    --  3
+  .moveq (.bool true) (.reg .result),       --  4
+  .jump .ifFalse 9,                         --  5  loop exit, to the END_LOOP at 14
+  .moveq (.int 1) (.reg .result),           --  6
+  .jump .ifFalse 2,                         --  7
+  .jump .always 6,                          --  8  break, to the END_LOOP at 14
+  .moveq (.int 1) (.reg .result),           --  9
+  .jump .ifFalse 3,                         -- 10
+  .moveq (.int 1) (.reg .result),           -- 11
+  .ret,                                     -- 12  RETURN from inside the loop
+  .jump .always (-9),                       -- 13  back edge
+  .endLoop,                                 -- 14
+  .end_ "f",                                -- 15
+  .loop,                                    -- 16
+  .moveq (.int 2) (.loopVar .counter),      -- 17
+  .push (.loopVar .counter), .pushq (.int 0), .op .gt, .pop (.reg .result),
+  .jump .ifFalse 11,                        -- 22
+  .ctx, .moveq (.int 1) (.reg .result), .param "x" (.reg .result), .jsr "f", .endCtx,
+  .push (.loopVar .counter), .pushq (.int 1), .op .sub, .pop (.loopVar .counter),
+  .jump .always (-14),                      -- 32
+  .endLoop]                                 -- 33
+
+example : WellScoped demoCore := by decide
+
+set_option maxRecDepth 4000 in
+example : genProgram demoCore = some demoCoreProg := by
+  simp [demoCore, demoCoreProg, B, A, num, genProgram, genBlock, genStmt, genIf, genLoop,
+    assembleLoop, patchBreaks, genRv, genExpr, genCall, genParams, ins, Block.ofList, Args.ofList,
+    counterTest, testOp, loopPost, result, counter, List.zipIdx_cons, List.zipIdx_nil]
+
+/-- the checker accepts the loaded image (evaluated, no theorem involved) … -/
+example : wfImage (load demoCoreProg) = true := by decide +kernel
+
+/-- … in which the jump over the definition has been shortened from 15 to 1 by the loader -/
+example : (match (load demoCoreProg).code[16]? with
+      | some (.jump .ifFalse 1) => true
+      | _ => false) = true ∧
+    (load demoCoreProg).routines = [("f", 2)] := by decide +kernel
+
+/-! what `WellScoped` excludes is really rejected by the checker: -/
+
+/-- a `break` in a routine body that belongs to a loop around the definition: the generator
+patches it into a jump out of the routine body -/
+def badBreakInRoutine : Block :=
+  B [.repeat_ .forever (B [.defRoutine "f" [] (B [.brk])])]
+
+example : ¬ WellScoped badBreakInRoutine := by decide
+example : (genProgram badBreakInRoutine).map (fun p => wfImage (load p)) = some false := by
+  decide +kernel
+
+/-- a `break` out of a matrix block: jumps out of the `MATRIX … END matrix` bracket -/
+def badBreakInMatrix : Block :=
+  B [.repeat_ .forever (B [.action .set (Operands.ofList [.matrixBlock (.str "m") (B [.brk])])])]
+
+example : ¬ WellScoped badBreakInMatrix := by decide
+example : (genProgram badBreakInMatrix).map (fun p => wfImage (load p)) = some false := by
+  decide +kernel
+
+/-- `return` outside a routine; a routine defined twice; a call of an unknown routine; a matrix
+operand inside a matrix block -/
+example : ¬ WellScoped (B [.ret none]) ∧
+    ¬ WellScoped (B [.defRoutine "f" [] (B []), .defRoutine "f" [] (B [.wait])]) ∧
+    ¬ WellScoped (B [.call "nope" [] (A [])]) ∧
+    ¬ WellScoped (B [.action .set (Operands.ofList [.matrixBlock (.str "m")
+      (B [.action .set (Operands.ofList [.matrixInline (.str "m") none none false])])])]) := by
+  decide
+
+/-- `break` outside any loop: no program at all -/
+example : genProgram (B [.brk]) = none := by decide +kernel
+
+end Examples
+
+end C06
 end Bardolph
